@@ -124,7 +124,7 @@ def traverse(x, S, N, X, R, G, F):
     S.append(x)
     d = len(S)
     N[x] = d
-    F[x] = G[x]
+    F[x] = set(G[x])
     for y in R[x]:
         if N[y] == 0:
             traverse(y, S, N, X, R, G, F)
